@@ -4,14 +4,15 @@ CONSTANTS
   SelfMiner = "m1"
   Thr = 2
   Cap = 2
-  LeakChoices = {TRUE}
+  LeakChoices = {FALSE}
   CapDecrChoices = {TRUE}
-  AtomicSetPhase = FALSE
+  SatChoices = {TRUE}
+  AtomicSetPhase = TRUE
   Proc = {"p1", "p2", "p3"}
   NoProc = "nobody"
   NoOp <- MCNoOp
   OpSet <- TocOps
   Budget <- Budget211
-INVARIANTS TypeOK C37_ShareCap C37_NoDeadlockUnlessLeak
-PROPERTIES C37_ShareOnce C37_FinalizedSticky C37_PhaseMonotoneUnlessStale C37_TimeoutMonotoneUnlessCap
-CHECK_DEADLOCK FALSE
+INVARIANTS TypeOK C37_ShareCap C37_NoDeadlock
+PROPERTIES C37_ShareOnce C37_FinalizedSticky C37_PhaseMonotone C37_TimeoutMonotone
+CHECK_DEADLOCK TRUE
